@@ -3,6 +3,7 @@ import Xp.Model.C05Fn
 import Xp.Model.C05Claim
 import Xp.Model.C05Ready
 import Xp.Proofs.C05
+import Xp.Gen.C05Skel
 /-
 C05 property theorems. Statements only paraphrase the property; helper lemmas
 live above each theorem only when trivial, otherwise in Xp/Proofs.
@@ -922,46 +923,220 @@ theorem isReady_true_iff (o : RObj) (cs : List RCheck) :
 
 /-! ### production of the outcomes by the P&T composer -/
 
-/-- The real P&T composer, end to end: a reconcile that publishes and whose final status update
-takes effect reports Ready=True iff every template's readiness checks hold and no apply was
-rejected, and Synced=True iff no apply was rejected - whatever a ToCompositeFieldPath patch wrote
-into the XR's status.conditions. -/
-theorem pt_ready_true_iff (old : St) (r : PTRec) (hpub : r.publish = none) (hl : r.lost = false) :
-    statusOf (ptReconcile old r).1.conds "Ready" = some "True" ↔ ∀ x ∈ r.res, x.ready = true ∧ x.invalid = false := by
-  unfold ptReconcile
-  simp only [hpub, hl, Bool.false_eq_true, if_false]
-  rw [statusOf_eq, findC_composeOk_ready]
-  simp only [Option.map_some, Option.some.injEq]
-  rw [readyCond_true_iff]
-  unfold ptComposed
-  simp
+/-- what the third loop of Compose reports: every resource Synced iff every template was rendered
+and its apply accepted; every resource Ready iff, in addition, its readiness checks hold -/
+theorem ptObserve_all (rs : List PTRes) (composed : List Res) (h : ptObserve rs = some composed) :
+    ((∀ c ∈ composed, c.synced = true) ↔ ∀ x ∈ rs, x.observed = true) ∧
+    ((∀ c ∈ composed, c.ready = true) ↔ ∀ x ∈ rs, x.observed = true ∧ isReady x.obj x.checks = some true) := by
+  induction rs generalizing composed with
+  | nil => simp [ptObserve] at h; subst h; simp
+  | cons r rest ih =>
+    unfold ptObserve at h
+    cases ho : r.observed with
+    | false =>
+      simp only [ho, Bool.false_eq_true, if_false, Option.map_eq_some_iff] at h
+      obtain ⟨tl, htl, rfl⟩ := h
+      simp [ho]
+    | true =>
+      simp only [ho, if_true] at h
+      cases hr : isReady r.obj r.checks with
+      | none => simp [hr] at h
+      | some b =>
+        simp only [hr, Option.map_eq_some_iff] at h
+        obtain ⟨tl, htl, rfl⟩ := h
+        have := ih tl htl
+        simp only [List.mem_cons, forall_eq_or_imp, ho, hr, true_and, Option.some.injEq]
+        exact ⟨by rw [this.1], by rw [this.2]⟩
 
-theorem pt_synced_true_iff (old : St) (r : PTRec) (hpub : r.publish = none) (hl : r.lost = false) :
-    statusOf (ptReconcile old r).1.conds "Synced" = some "True" ↔ ∀ x ∈ r.res, x.invalid = false := by
-  unfold ptReconcile
-  simp only [hpub, hl, Bool.false_eq_true, if_false]
-  rw [statusOf_eq, findC_composeOk_synced]
+/-- the reconcile completes: Compose fails nowhere, every readiness check can be run, the connection
+details are published and the final status update takes effect -/
+def PTRec.completes (r : PTRec) (composed : List Res) : Prop :=
+  r.early = none ∧ ptObserve r.effRes = some composed ∧ r.late = none ∧ r.publish = none ∧ r.lost = false
+
+instance (r : PTRec) (composed : List Res) : Decidable (r.completes composed) := by
+  unfold PTRec.completes; infer_instance
+
+theorem pt_completes_eq (old : St) (r : PTRec) (composed : List Res) (h : r.completes composed) :
+    ptReconcile old r = (composeOk (r.patched old) composed none [], true) := by
+  obtain ⟨h1, h2, h3, h4, h5⟩ := h
+  simp [ptReconcile, h1, h2, h3, h4, h5]
+
+/-- The real P&T composer, end to end: a reconcile that completes reports Ready=True iff EVERY
+template was rendered, its apply was accepted by the API server and every one of its readiness
+checks holds on the applied resource - whatever a ToCompositeFieldPath patch wrote into the XR's
+status.conditions. -/
+theorem pt_ready_true_iff (old : St) (r : PTRec) (composed : List Res) (h : r.completes composed) :
+    statusOf (ptReconcile old r).1.conds "Ready" = some "True" ↔
+      ∀ x ∈ r.effRes, x.rendered = true ∧ x.invalid = false ∧ isReady x.obj x.checks = some true := by
+  rw [pt_completes_eq old r composed h, statusOf_eq, findC_composeOk_ready]
   simp only [Option.map_some, Option.some.injEq]
-  rw [syncedCond_true_iff]
-  unfold ptComposed
-  simp
+  rw [readyCond_true_iff, (ptObserve_all _ _ h.2.1).2]
+  simp [PTRes.observed, and_assoc]
+
+/-- ... and Synced=True iff every template was rendered and no apply was rejected. -/
+theorem pt_synced_true_iff (old : St) (r : PTRec) (composed : List Res) (h : r.completes composed) :
+    statusOf (ptReconcile old r).1.conds "Synced" = some "True" ↔
+      ∀ x ∈ r.effRes, x.rendered = true ∧ x.invalid = false := by
+  rw [pt_completes_eq old r composed h, statusOf_eq, findC_composeOk_synced]
+  simp only [Option.map_some, Option.some.injEq]
+  rw [syncedCond_true_iff, (ptObserve_all _ _ h.2.1).1]
+  simp [PTRes.observed]
+
+/-- WHICH FIELD PATHS A P&T PATCH REACHES: a ToCompositeFieldPath patch onto
+status.conditions[k].status / .reason changes that one field of that one EXISTING entry - it adds
+no condition, removes none, renames none, and leaves every other entry alone. -/
+theorem patchAt_reach (cs : List Cond) (k : Nat) (f : CField) (v : String) :
+    (patchAt cs k f v).map (·.type) = cs.map (·.type) ∧
+    (∀ j, j ≠ k → (patchAt cs k f v)[j]? = cs[j]?) ∧
+    (∀ c, (patchAt cs k f v)[k]? = some c → ∃ c0, cs[k]? = some c0 ∧ c.type = c0.type ∧
+      (f = .status → c.reason = c0.reason) ∧ (f = .reason → c.status = c0.status)) := by
+  unfold patchAt
+  cases hk : cs[k]? with
+  | none => simp [hk]
+  | some c0 =>
+    have hlt : k < cs.length := by
+      rcases Nat.lt_or_ge k cs.length with h | h
+      · exact h
+      · rw [List.getElem?_eq_none h] at hk; cases hk
+    refine ⟨?_, ?_, ?_⟩
+    · simp only []
+      apply List.ext_getElem?
+      intro i
+      rw [List.getElem?_map, List.getElem?_map]
+      by_cases hi : i = k
+      · subst hi
+        rw [List.getElem?_set_self hlt, hk]
+        cases f <;> rfl
+      · rw [List.getElem?_set_ne (Ne.symm hi)]
+    · intro j hj
+      simp only []
+      exact List.getElem?_set_ne (Ne.symm hj)
+    · intro c hc
+      simp only [List.getElem?_set_self hlt, Option.some.injEq] at hc
+      refine ⟨c0, rfl, ?_⟩
+      subst hc
+      cases f <;> simp
+
+/-- THE SYSTEM CONDITION Synced IS RE-ASSERTED ON EVERY PATH THAT REACHES A STATUS UPDATE: whatever
+the patch wrote into the XR held in memory, the stored Synced condition (status and reason) after
+ANY P&T reconcile - completing, failing anywhere with any class, losing its update - is that of the
+same reconcile without the patch. -/
+theorem pt_synced_patch_independent (old : St) (r : PTRec) :
+    findC (ptReconcile old r).1.conds "Synced" = findC (ptReconcile old { r with patch := none }).1.conds "Synced" := by
+  have hfail : ∀ (m1 m2 : St) e, findC (composeFail old m1 e r.lost).1.conds "Synced" = findC (composeFail old m2 e r.lost).1.conds "Synced" := by
+    intro m1 m2 e
+    unfold composeFail
+    split
+    · rfl
+    · simp only []; rw [findC_composeError_synced, findC_composeError_synced]
+  have he : ({ r with patch := none } : PTRec).early = r.early := rfl
+  have hr : ({ r with patch := none } : PTRec).effRes = r.effRes := rfl
+  have hl : ({ r with patch := none } : PTRec).late = r.late := rfl
+  unfold ptReconcile
+  rw [he, hr, hl]
+  cases r.early with
+  | some e => rfl
+  | none =>
+    simp only []
+    cases ptObserve r.effRes with
+    | none => exact hfail _ _ _
+    | some composed =>
+      simp only []
+      cases r.late with
+      | some e => exact hfail _ _ _
+      | none =>
+        simp only []
+        cases hp : r.publish with
+        | none =>
+          simp only []
+          split
+          · rfl
+          · simp only []; rw [findC_composeOk_synced, findC_composeOk_synced]
+        | some e =>
+          cases e <;> simp only [] <;> first
+            | rfl
+            | (split
+               · rfl
+               · exact (findC_setCond_self _ reconcileError).trans (findC_setCond_self _ reconcileError).symm)
+
+/-- ... and so is Ready on the path that completes: the stored Ready condition is the one derived
+from the resources, whatever the patch wrote. -/
+theorem pt_ready_patch_independent_on_completion (old : St) (r : PTRec) (composed : List Res) (h : r.completes composed) :
+    findC (ptReconcile old r).1.conds "Ready" = some (readyCond composed none) := by
+  rw [pt_completes_eq old r composed h, findC_composeOk_ready]
+
+/-- THE PRECISE EXTENT OF D26. A P&T reconcile that does NOT complete never derives Ready: the
+stored Ready condition is the one of the XR as held in memory when the reconcile gave up - the
+previously stored one, except for what the patch wrote into it (`PTRec.patched`: only when the first
+template was rendered, applied and observed, and Compose did not fail before that). -/
+theorem pt_failing_ready_is_memory (old : St) (r : PTRec) (hf : ∀ composed, ¬ r.completes composed) :
+    findC (ptReconcile old r).1.conds "Ready" = findC old.conds "Ready" ∨
+    ((ptReconcile old r).2 = true ∧ r.early = none ∧
+      findC (ptReconcile old r).1.conds "Ready" = findC (r.patched old).conds "Ready") := by
+  have hfail : ∀ (m : St) e, findC (composeFail old m e r.lost).1.conds "Ready" = findC old.conds "Ready" ∨
+      ((composeFail old m e r.lost).2 = true ∧ findC (composeFail old m e r.lost).1.conds "Ready" = findC m.conds "Ready") := by
+    intro m e
+    unfold composeFail
+    split
+    · left; rfl
+    · right; exact ⟨rfl, findC_composeError_ready _ _⟩
+  unfold ptReconcile
+  cases he : r.early with
+  | some e =>
+    simp only []
+    rcases hfail old e with h | h
+    · left; exact h
+    · left; exact h.2
+  | none =>
+    simp only []
+    cases ho : ptObserve r.effRes with
+    | none =>
+      simp only []
+      rcases hfail (r.patched old) .generic with h | h
+      · left; exact h
+      · right; exact ⟨h.1, (by first | rfl | trivial), h.2⟩
+    | some composed =>
+      simp only []
+      cases hl : r.late with
+      | some e =>
+        simp only []
+        rcases hfail (r.patched old) e with h | h
+        · left; exact h
+        · right; exact ⟨h.1, (by first | rfl | trivial), h.2⟩
+      | none =>
+        simp only []
+        cases hp : r.publish with
+        | none =>
+          simp only []
+          cases hlo : r.lost with
+          | true => left; rfl
+          | false => exact absurd ⟨he, ho, hl, hp, hlo⟩ (hf composed)
+        | some e =>
+          cases e <;> simp only [] <;> first
+            | (left; first | rfl | trivial)
+            | (split
+               · left; rfl
+               · right; exact ⟨rfl, (by first | rfl | trivial), findC_setCond_ne _ _ _ (by decide)⟩)
 
 /-- Without such a patch a P&T reconcile that does not complete leaves Ready as it was. -/
-theorem pt_failing_keeps_ready (old : St) (r : PTRec) (hp : r.patch = none) (hf : r.publish ≠ none ∨ r.lost = true) :
+theorem pt_failing_keeps_ready (old : St) (r : PTRec) (hp : r.patch = none) (hf : ∀ composed, ¬ r.completes composed) :
     statusOf (ptReconcile old r).1.conds "Ready" = statusOf old.conds "Ready" := by
-  unfold ptReconcile
-  simp only [hp]
-  cases hpub : r.publish with
-  | none =>
-    rcases hf with h | h
-    · exact absurd hpub h
-    · simp [h]
-  | some e =>
-    cases e <;> simp only [] <;> first
-      | rfl
-      | (split
-         · rfl
-         · exact statusOf_setCond_ne _ _ _ (by decide))
+  have hpatched : r.patched old = old := by unfold PTRec.patched; rw [hp]
+  rw [statusOf_eq, statusOf_eq]
+  rcases pt_failing_ready_is_memory old r hf with h | h
+  · rw [h]
+  · rw [h.2.2, hpatched]
+
+/-- A P&T reconcile whose Compose fails (a failing call of any non-conflict class, or a readiness
+check that cannot be run) and whose status update takes effect reports Synced=False and turns
+every custom condition Unknown - P&T has no functions to re-assert them. -/
+theorem pt_compose_failure_synced_false (old mem : St) (e : EC) (he : e ≠ .conflict) :
+    (composeFail old mem e false).2 = true ∧
+    statusOf (composeFail old mem e false).1.conds "Synced" = some "False" := by
+  have : (e == EC.conflict) = false := by cases e <;> first | rfl | exact absurd rfl he
+  unfold composeFail
+  simp only [this, Bool.or_false, Bool.false_eq_true, if_false, true_and]
+  rw [statusOf_eq, findC_composeError_synced]; rfl
 
 /-- THE UNCHANGED CODE LETS A COMPOSITION SET A SYSTEM CONDITION THROUGH THE XR'S STATUS: the model of
 the existing P&T path on a concrete witness - a ToCompositeFieldPath patch onto
@@ -970,8 +1145,561 @@ PublishConnection failing - stores Ready=True after the reconcile (monitor
 `C05:system-condition-set-via-xr-status-patch`, corpus/C05/pt-status-conditions-patch.jsonl). -/
 theorem system_condition_via_xr_status_patch_fails_on_unfixed_witness :
     statusOf (ptReconcile ⟨[⟨"Ready", "False", "Creating"⟩], []⟩
-      ⟨[⟨"a", false, false⟩], some (0, "True"), some .generic, false⟩).1.conds "Ready" = some "True" := by
+      ⟨[⟨"a", true, false, ⟨.absent, .absent, .absent, []⟩, [⟨"NonEmpty", "status.s", "", 0, false, "", ""⟩]⟩],
+       some (0, .status, "True"), none, some .generic, false⟩).1.conds "Ready" = some "True" := by
   decide
+
+/-- ... and the same through the OTHER exits that store the XR held in memory without deriving
+Ready: Compose failing after the patch was rendered - here the final Apply of the XR (any
+non-conflict class), or a readiness check of a later template that cannot be run. -/
+theorem system_condition_via_xr_status_patch_on_compose_failure_witness :
+    statusOf (ptReconcile ⟨[⟨"Ready", "False", "Creating"⟩], []⟩
+      ⟨[⟨"a", true, false, ⟨.absent, .absent, .absent, []⟩, [⟨"NonEmpty", "status.s", "", 0, false, "", ""⟩]⟩],
+       some (0, .status, "True"), some (.xrApply, .forbidden), none, false⟩).1.conds "Ready" = some "True" ∧
+    statusOf (ptReconcile ⟨[⟨"Ready", "False", "Creating"⟩], []⟩
+      ⟨[⟨"a", true, false, ⟨.absent, .absent, .absent, []⟩, [⟨"None", "", "", 0, false, "", ""⟩]⟩,
+        ⟨"b", true, false, ⟨.absent, .absent, .absent, []⟩, [⟨"Bogus", "", "", 0, false, "", ""⟩]⟩],
+       some (0, .status, "True"), none, none, false⟩).1.conds "Ready" = some "True" := by
+  decide
+
+/-! ### Compose failing after the function pipeline completed -/
+
+theorem fnF_no_fault (old : St) (r : FnRec) (stale : Bool) : fnReconcileF old r none stale = fnReconcile old r := by
+  unfold fnReconcileF
+  cases runPipe r.steps [] none <;> rfl
+
+/-- the fault is reached: the pipeline completed and the call is issued -/
+def FnRec.faulted (r : FnRec) (p : FnPoint) : Prop :=
+  ∃ conds last, runPipe r.steps [] none = .ok conds last ∧ p.fires last = true
+
+theorem fnF_faulted_eq (old : St) (r : FnRec) (p : FnPoint) (e : EC) (stale : Bool) (h : r.faulted p) :
+    fnReconcileF old r (some (p, e)) stale = fnFaultOutcome old p e r.lost stale := by
+  obtain ⟨conds, last, h1, h2⟩ := h
+  unfold fnReconcileF
+  simp [h1, h2]
+
+theorem fnF_not_faulted_eq (old : St) (r : FnRec) (p : FnPoint) (e : EC) (stale : Bool) (h : ¬ r.faulted p) :
+    fnReconcileF old r (some (p, e)) stale = fnReconcile old r := by
+  unfold fnReconcileF
+  cases hp : runPipe r.steps [] none with
+  | error => rfl
+  | fatal c => rfl
+  | ok conds last =>
+    simp only []
+    cases hf : p.fires last with
+    | true => exact absurd ⟨conds, last, hp, hf⟩ h
+    | false => simp
+
+/-- A Compose failure AFTER the pipeline (persisting the resource references, applying a composed
+resource with a non-invalid error, applying the desired XR status) never overstates: nothing is
+written (conflict, lost update, the XR held by the reconciler outdated by the reference apply or
+replaced by the desired XR), or Ready is left as it was, Synced is False, and EVERY custom
+condition the XR carried becomes Unknown - the conditions the pipeline returned are dropped with
+the rest of the result, however many steps re-asserted them. -/
+theorem fnF_fault_never_overstates (old : St) (r : FnRec) (p : FnPoint) (e : EC) (stale : Bool) (h : r.faulted p) :
+    fnReconcileF old r (some (p, e)) stale = (old, false) ∨
+    ((fnReconcileF old r (some (p, e)) stale).2 = true ∧
+     findC (fnReconcileF old r (some (p, e)) stale).1.conds "Ready" = findC old.conds "Ready" ∧
+     statusOf (fnReconcileF old r (some (p, e)) stale).1.conds "Synced" = some "False" ∧
+     ∀ c ∈ old.conds, isSystem c.type = false →
+       findC (fnReconcileF old r (some (p, e)) stale).1.conds c.type = some ⟨c.type, "Unknown", "FatalError"⟩) := by
+  rw [fnF_faulted_eq old r p e stale h]
+  have key : ∀ lost, composeFail old old e lost = (old, false) ∨
+      ((composeFail old old e lost).2 = true ∧
+       findC (composeFail old old e lost).1.conds "Ready" = findC old.conds "Ready" ∧
+       statusOf (composeFail old old e lost).1.conds "Synced" = some "False" ∧
+       ∀ c ∈ old.conds, isSystem c.type = false →
+         findC (composeFail old old e lost).1.conds c.type = some ⟨c.type, "Unknown", "FatalError"⟩) := by
+    intro lost
+    unfold composeFail
+    split
+    · left; rfl
+    · right
+      refine ⟨rfl, findC_composeError_ready _ _, ?_, ?_⟩
+      · rw [statusOf_eq, findC_composeError_synced]; rfl
+      · intro c hc hs
+        exact unknown_on_fatal old [] c hc hs rfl
+  unfold fnFaultOutcome
+  cases p with
+  | refs => exact key _
+  | apply => exact key _
+  | statusPatch => left; rfl
+
+/-- a failing apply of a composed resource after the reference apply changed the XR, and a failing
+apply of the desired XR status, store NOTHING: the XR keeps whatever it reported before -/
+theorem fnF_stale_writes_nothing (old : St) (r : FnRec) (p : FnPoint) (e : EC) (stale : Bool) (h : r.faulted p)
+    (hs : p = .statusPatch ∨ (p = .apply ∧ stale = true)) :
+    fnReconcileF old r (some (p, e)) stale = (old, false) := by
+  rw [fnF_faulted_eq old r p e stale h]
+  unfold fnFaultOutcome
+  rcases hs with rfl | ⟨rfl, rfl⟩
+  · rfl
+  · simp [composeFail]
+
+/-- Functions cannot forge through a reconcile whose Compose fails late either: the stored Ready
+and Synced conditions are those of the same reconcile with every function-supplied condition
+removed (responses and desired XR status). -/
+theorem fnF_no_forge (old : St) (r : FnRec) (f : Option (FnPoint × EC)) (stale : Bool) (t : String) (ht : t = "Ready" ∨ t = "Synced") :
+    findC (fnReconcileF old r f stale).1.conds t = findC (fnReconcileF old r.strip f stale).1.conds t := by
+  cases f with
+  | none => rw [fnF_no_fault, fnF_no_fault]; exact fn_no_forge old r t ht
+  | some pe =>
+    obtain ⟨p, e⟩ := pe
+    have hs := runPipe_strip r.steps [] none
+    simp only [Option.map_none] at hs
+    have hst : r.strip.steps = r.steps.map FnStep.strip := rfl
+    have hiff : r.strip.faulted p ↔ r.faulted p := by
+      unfold FnRec.faulted
+      rw [hst, hs]
+      cases hp : runPipe r.steps [] none with
+      | error => simp
+      | fatal c => simp
+      | ok conds last =>
+        have hfire : p.fires (last.map FnStep.strip) = p.fires last := by
+          cases p <;> cases last <;> rfl
+        constructor
+        · rintro ⟨c2, l2, h1, h2⟩
+          simp only [PipeOut.ok.injEq] at h1
+          obtain ⟨_, rfl⟩ := h1
+          exact ⟨conds, last, rfl, hfire ▸ h2⟩
+        · rintro ⟨c2, l2, h1, h2⟩
+          simp only [PipeOut.ok.injEq] at h1
+          obtain ⟨_, rfl⟩ := h1
+          exact ⟨[], _, rfl, hfire.symm ▸ h2⟩
+    by_cases hf : r.faulted p
+    · rw [fnF_faulted_eq old r p e stale hf, fnF_faulted_eq old r.strip p e stale (hiff.mpr hf)]; rfl
+    · rw [fnF_not_faulted_eq old r p e stale hf, fnF_not_faulted_eq old r.strip p e stale (fun h => hf (hiff.mp h))]
+      exact fn_no_forge old r t ht
+
+/-- With Compose failing anywhere: an XR is Ready=True after a function reconcile only if it was so
+before, or the reconcile completed - no late failure was reached - and the last step's desired
+state lets the XR be ready. -/
+theorem fnF_ready_only_if (old : St) (r : FnRec) (f : Option (FnPoint × EC)) (stale : Bool) (hne : r.steps ≠ [])
+    (h : statusOf (fnReconcileF old r f stale).1.conds "Ready" = some "True") :
+    statusOf old.conds "Ready" = some "True" ∨
+      ((∀ p e, f = some (p, e) → ¬ r.faulted p) ∧
+       ∃ conds last, runPipe r.steps [] none = .ok conds (some last) ∧ r.publish = none ∧ r.lost = false ∧ last.mayReady) := by
+  cases f with
+  | none =>
+    rw [fnF_no_fault] at h
+    rcases fn_ready_only_if old r hne h with h1 | h1
+    · left; exact h1
+    · right; exact ⟨(by intro p e he; cases he), h1⟩
+  | some pe =>
+    obtain ⟨p, e⟩ := pe
+    by_cases hf : r.faulted p
+    · left
+      rcases fnF_fault_never_overstates old r p e stale hf with h1 | h1
+      · rw [h1] at h; exact h
+      · rw [statusOf_eq, h1.2.1] at h; exact h
+    · rw [fnF_not_faulted_eq old r p e stale hf] at h
+      rcases fn_ready_only_if old r hne h with h1 | h1
+      · left; exact h1
+      · right
+        refine ⟨?_, h1⟩
+        intro p' e' he
+        simp only [Option.some.injEq, Prod.mk.injEq] at he
+        rw [← he.1]; exact hf
+
+/-- The world around the conditions (resource references, live composed resources) never decides
+WHAT a function reconcile stores, only whether a late failure's status update goes through: the
+stored state and the write flag of a step of the XR world are those of `fnReconcileF` for some
+value of `stale`. All the theorems above therefore hold for every step of every sequence. -/
+theorem fnWorldStep_is_reconcileF (x : FnXR) (r : FnRec) (f : Option (FnPoint × EC)) :
+    ∃ stale, ((fnWorldStep x r f).1.st, (fnWorldStep x r f).2) = fnReconcileF x.st r f stale := by
+  unfold fnWorldStep
+  cases hp : runPipe r.steps [] none with
+  | error => exact ⟨false, rfl⟩
+  | fatal c => exact ⟨false, rfl⟩
+  | ok conds last =>
+    simp only []
+    refine ⟨!x.applied || !((((last.map (·.res)).getD []).map (·.name)).all (x.live.contains ·) &&
+      x.refs.all ((((last.map (·.res)).getD []).map (·.name)).contains ·)), ?_⟩
+    cases f with
+    | none => rfl
+    | some pe =>
+      obtain ⟨p, e⟩ := pe
+      cases p with
+      | refs => rfl
+      | apply => simp only []; split <;> rfl
+      | statusPatch => rfl
+
+/-! ### the deletion branch -/
+
+/-- the deletion went through: connection details unpublished and the finalizer removed (or not
+there any more / already gone with the object) -/
+def DelCall.succeeds (c : DelCall) (fin : Bool) : Prop :=
+  c.fault = none ∨ ∃ e, c.fault = some (.removeFinalizer, e) ∧ (fin = false ∨ e = .notFound)
+
+/-- An XR being deleted is never SET Ready=True, whatever was stored and wherever the reconcile
+fails: every status a (non-paused) reconcile of the deletion branch stores carries
+Ready=False/Deleting - or, in the code as it is (`re = false`), on the one path where
+RemoveFinalizer's Update went through, the Ready condition the XR had before. -/
+theorem del_ready_deleting_or_left (re : Bool) (old : St) (fin : Bool) (c : DelCall) (hp : c.paused = false) (st : St)
+    (h : reconcileDeleted re old fin c = some st) :
+    findC st.conds "Ready" = some deleting ∨
+      (re = false ∧ fin = true ∧ c.fault = none ∧ findC st.conds "Ready" = findC old.conds "Ready") := by
+  have key : ∀ x : Cond, x.type = "Synced" →
+      findC (setCond (setCond old.conds deleting) x) "Ready" = some deleting := by
+    intro x hx
+    rw [findC_setCond_ne _ _ _ (by rw [hx]; decide)]
+    exact findC_setCond_self old.conds deleting
+  unfold reconcileDeleted at h
+  simp only [hp, Bool.false_eq_true, if_false] at h
+  split at h
+  · cases h
+  · split at h
+    · rw [Option.some.injEq] at h; subst h; left; exact key _ rfl
+    · split at h
+      · rw [Option.some.injEq] at h; subst h; left; exact key _ rfl
+      · split at h
+        · cases h
+        · rw [Option.some.injEq] at h; subst h; left; exact key _ rfl
+    · rename_i hf
+      split at h
+      · rename_i hc
+        rw [Option.some.injEq] at h; subst h
+        right
+        simp only [Bool.and_eq_true, Bool.not_eq_true'] at hc
+        exact ⟨hc.2, hc.1, hf, findC_setCond_ne _ _ _ (by decide)⟩
+      · rw [Option.some.injEq] at h; subst h; left; exact key _ rfl
+
+/-- With the Deleting condition set again after RemoveFinalizer (the proposed repair) an XR being
+deleted is NEVER reported Ready=True: every status stored carries Ready=False/Deleting. -/
+theorem del_ready_is_deleting (old : St) (fin : Bool) (c : DelCall) (hp : c.paused = false) (st : St)
+    (h : reconcileDeleted true old fin c = some st) : findC st.conds "Ready" = some deleting := by
+  rcases del_ready_deleting_or_left true old fin c hp st h with h1 | h1
+  · exact h1
+  · exact absurd h1.1 (by decide)
+
+/-- THE UNCHANGED CODE KEEPS Ready=True ON AN XR BEING DELETED: the model of the existing deletion
+branch on a concrete witness - a ready XR with a deletion timestamp, held by another finalizer,
+UnpublishConnection and RemoveFinalizer succeed - stores Ready=True/Available and Synced=True
+(monitor `C05:deleting-condition-lost-on-finalizer-removal`, corpus/C05/deleting-condition-lost.jsonl). -/
+theorem deleting_condition_lost_fails_on_unfixed_witness :
+    (reconcileDeleted false ⟨[⟨"Ready", "True", "Available"⟩], []⟩ true ⟨false, false, none, false⟩).map
+      (fun st => (findC st.conds "Ready", statusOf st.conds "Synced")) =
+      some (some ⟨"Ready", "True", "Available"⟩, some "True") := by
+  decide
+
+/-- ... and Synced=True iff the deletion went through. -/
+theorem del_synced_true_iff (re : Bool) (old : St) (fin : Bool) (c : DelCall) (hp : c.paused = false) (st : St)
+    (h : reconcileDeleted re old fin c = some st) :
+    statusOf st.conds "Synced" = some "True" ↔ c.succeeds fin := by
+  have ok : ∀ base : List Cond, statusOf (setCond base reconcileSuccess) "Synced" = some "True" :=
+    fun base => statusOf_setCond_self base reconcileSuccess
+  have bad : ∀ base : List Cond, statusOf (setCond base reconcileError) "Synced" = some "False" :=
+    fun base => statusOf_setCond_self base reconcileError
+  unfold reconcileDeleted at h
+  unfold DelCall.succeeds
+  simp only [hp, Bool.false_eq_true, if_false] at h
+  split at h
+  · cases h
+  · cases hf : c.fault with
+    | none =>
+      simp only [hf] at h
+      split at h <;> (rw [Option.some.injEq] at h; subst h; simp [ok])
+    | some pe =>
+      obtain ⟨p, e⟩ := pe
+      cases p with
+      | unpublish =>
+        simp only [hf, Option.some.injEq] at h; subst h
+        simp [bad]
+      | removeFinalizer =>
+        simp only [hf] at h
+        split at h
+        · rename_i hc
+          rw [Option.some.injEq] at h; subst h
+          simp only [ok, true_iff]
+          right
+          refine ⟨e, rfl, ?_⟩
+          cases fin <;> cases e <;> simp_all
+        · rename_i hc
+          split at h
+          · cases h
+          · rw [Option.some.injEq] at h; subst h
+            simp only [bad]
+            constructor
+            · intro hh; exact absurd hh (by decide)
+            · rintro (hh | ⟨e', he', hh⟩)
+              · cases hh
+              · simp only [Option.some.injEq, Prod.mk.injEq, true_and] at he'
+                subst he'
+                cases fin <;> cases e <;> simp_all
+
+/-- the deletion branch never touches a custom condition, and functions play no part in it -/
+theorem del_custom_untouched (re : Bool) (old : St) (fin : Bool) (c : DelCall) (st : St)
+    (h : reconcileDeleted re old fin c = some st) (t : String) (ht : t ≠ "Ready" ∧ t ≠ "Synced") :
+    findC st.conds t = findC old.conds t ∧ st.claimTypes = old.claimTypes := by
+  have one : ∀ x : Cond, x.type = "Synced" → findC (setCond old.conds x) t = findC old.conds t :=
+    fun x hx => findC_setCond_ne _ _ _ (by rw [hx]; exact ht.2)
+  have two : ∀ x : Cond, x.type = "Synced" →
+      findC (setCond (setCond old.conds deleting) x) t = findC old.conds t := by
+    intro x hx
+    rw [findC_setCond_ne _ _ _ (by rw [hx]; exact ht.2)]
+    exact findC_setCond_ne _ _ _ ht.1
+  unfold reconcileDeleted at h
+  split at h
+  · cases h
+  · split at h
+    · rw [Option.some.injEq] at h; subst h; exact ⟨one _ rfl, rfl⟩
+    · split at h
+      · rw [Option.some.injEq] at h; subst h; exact ⟨two _ rfl, rfl⟩
+      · split at h
+        · rw [Option.some.injEq] at h; subst h; exact ⟨two _ rfl, rfl⟩
+        · split at h
+          · cases h
+          · rw [Option.some.injEq] at h; subst h; exact ⟨two _ rfl, rfl⟩
+      · split at h
+        · rw [Option.some.injEq] at h; subst h; exact ⟨one _ rfl, rfl⟩
+        · rw [Option.some.injEq] at h; subst h; exact ⟨two _ rfl, rfl⟩
+
+theorem reconcileDeleted_ready_not_true (re : Bool) (old : St) (fin : Bool) (c : DelCall) (st : St)
+    (h : reconcileDeleted re old fin c = some st) (h0 : statusOf old.conds "Ready" ≠ some "True") :
+    statusOf st.conds "Ready" ≠ some "True" := by
+  cases hp : c.paused with
+  | true =>
+    unfold reconcileDeleted at h
+    simp only [hp, if_true] at h
+    split at h
+    · cases h
+    · rw [Option.some.injEq] at h; subst h
+      rw [statusOf_setCond_ne _ _ _ (by decide)]; exact h0
+  | false =>
+    rcases del_ready_deleting_or_left re old fin c hp st h with h1 | h1
+    · rw [statusOf_eq, h1]; decide
+    · rw [statusOf_eq, h1.2.2.2, ← statusOf_eq]; exact h0
+
+theorem delStep_ready_not_true (re : Bool) (x : DelXR) (c : DelCall) (h0 : statusOf x.st.conds "Ready" ≠ some "True")
+    (x' : DelXR) (h : (delStep re (some x) c).1 = some x') : statusOf x'.st.conds "Ready" ≠ some "True" := by
+  unfold delStep at h
+  simp only [] at h
+  split at h
+  · split at h
+    · cases hr : reconcileDeleted re x.st x.fin c with
+      | none => simp only [hr, Option.some.injEq] at h; subst h; exact h0
+      | some st =>
+        simp only [hr, Option.some.injEq] at h; subst h
+        exact reconcileDeleted_ready_not_true re _ _ _ _ hr h0
+    · cases h
+  · cases hr : reconcileDeleted re x.st x.fin c with
+    | none => simp only [hr, Option.some.injEq] at h; subst h; exact h0
+    | some st =>
+      simp only [hr, Option.some.injEq] at h; subst h
+      exact reconcileDeleted_ready_not_true re _ _ _ _ hr h0
+
+theorem delTrace_gone (re : Bool) (cs : List DelCall) : ∀ p ∈ delTrace re none cs, p.1 = none := by
+  induction cs with
+  | nil => intro p hp; simp [delTrace] at hp
+  | cons c rest ih =>
+    intro p hp
+    simp only [delTrace, delStep, List.mem_cons] at hp
+    rcases hp with rfl | hp
+    · rfl
+    · exact ih p hp
+
+/-- Through ANY sequence of reconciles of an XR being deleted - paused or not, failing anywhere
+with any class, losing status updates, with or without the repair: an XR that was not Ready=True
+when its deletion began is never reported Ready=True again. -/
+theorem del_trace_ready_never_becomes_true (re : Bool) (x : DelXR) (cs : List DelCall)
+    (h0 : statusOf x.st.conds "Ready" ≠ some "True") :
+    ∀ p ∈ delTrace re (some x) cs, ∀ st, p.1 = some st → statusOf st.conds "Ready" ≠ some "True" := by
+  induction cs generalizing x with
+  | nil => intro p hp; simp [delTrace] at hp
+  | cons c rest ih =>
+    intro p hp st hst
+    simp only [delTrace, List.mem_cons] at hp
+    rcases hp with rfl | hp
+    · simp only [Option.map_eq_some_iff] at hst
+      obtain ⟨x', hx', rfl⟩ := hst
+      exact delStep_ready_not_true re x c h0 x' hx'
+    · cases hx' : (delStep re (some x) c).1 with
+      | none =>
+        rw [hx'] at hp
+        have := delTrace_gone re rest p hp
+        rw [this] at hst; cases hst
+      | some x' =>
+        rw [hx'] at hp
+        exact ih x' (delStep_ready_not_true re x c h0 x' hx') p hp st hst
+
+/-- ... and with the repair, from the first status update that takes effect on: whatever the XR
+reported when its deletion began, every non-paused reconcile that stores a status stores
+Ready=False/Deleting. -/
+theorem del_step_repaired_ready_is_deleting (x : DelXR) (c : DelCall) (hp : c.paused = false)
+    (hw : (delStep true (some x) c).2 = true) :
+    ∃ x', (delStep true (some x) c).1 = some x' ∧ findC x'.st.conds "Ready" = some deleting := by
+  unfold delStep at hw ⊢
+  simp only [] at hw ⊢
+  split
+  · rename_i hrm
+    simp only [hrm, if_true] at hw
+    split
+    · rename_i hh
+      simp only [hh, if_true] at hw
+      cases hr : reconcileDeleted true x.st x.fin c with
+      | none => simp [hr] at hw
+      | some st => exact ⟨_, rfl, del_ready_is_deleting _ _ _ hp st hr⟩
+    · rename_i hh
+      simp [hh] at hw
+  · rename_i hrm
+    simp only [hrm, Bool.false_eq_true, if_false] at hw
+    cases hr : reconcileDeleted true x.st x.fin c with
+    | none => simp [hr] at hw
+    | some st => exact ⟨_, rfl, del_ready_is_deleting _ _ _ hp st hr⟩
+
+/-! ### the deletion branch of the claim reconcile -/
+
+/-- A claim being deleted is never SET Ready=True: every status a (non-paused) reconcile of a claim
+with a deletion timestamp stores carries Ready=False/Deleting, or leaves Ready as it was - when the
+read of the XR failed (ReconcileError before the branch is entered) or, in the code as it is
+(`re = false`), on the path where RemoveFinalizer's Update went through. -/
+theorem cdel_ready_deleting_or_left (re : Bool) (w : CDelWorld) (c : CDelCall) (hp : c.paused = false) (cs : List Cond)
+    (h : claimDeleted re w c = some cs) :
+    findC cs "Ready" = some deleting ∨
+      (findC cs "Ready" = findC w.conds "Ready" ∧ (c.xrReadFails w = true ∨ (re = false ∧ w.fin = true))) := by
+  have key : ∀ x : Cond, x.type = "Synced" →
+      findC (setCond (setCond w.conds deleting) x) "Ready" = some deleting := by
+    intro x hx
+    rw [findC_setCond_ne _ _ _ (by rw [hx]; decide)]
+    exact findC_setCond_self w.conds deleting
+  have done : findC (claimDelDone re w) "Ready" = some deleting ∨
+      (findC (claimDelDone re w) "Ready" = findC w.conds "Ready" ∧ (c.xrReadFails w = true ∨ (re = false ∧ w.fin = true))) := by
+    unfold claimDelDone
+    split
+    · rename_i hc
+      simp only [Bool.and_eq_true, Bool.not_eq_true'] at hc
+      right; exact ⟨findC_setCond_ne _ _ _ (by decide), Or.inr ⟨hc.2, hc.1⟩⟩
+    · left; exact key _ rfl
+  unfold claimDeleted at h
+  simp only [hp, Bool.false_eq_true, if_false] at h
+  split at h
+  · cases h
+  · split at h
+    · rename_i hx
+      rw [Option.some.injEq] at h; subst h
+      right; exact ⟨findC_setCond_ne _ _ _ (by decide), Or.inl hx⟩
+    · split at h
+      · split at h
+        · rw [Option.some.injEq] at h; subst h; left; exact key _ rfl
+        · rw [Option.some.injEq] at h; subst h; exact done
+      · rw [Option.some.injEq] at h; subst h; left; exact key _ rfl
+      · split at h <;> (rw [Option.some.injEq] at h; subst h; left; exact key _ rfl)
+      · rw [Option.some.injEq] at h; subst h; exact done
+
+/-- A reconcile of a claim being deleted never reports Ready=True on its own account, with or
+without the repair, whatever fails: Ready=True afterwards means Ready=True before. (The claim clause
+of the property - Ready=True only by a reconcile that observed its XR Ready=True - is not weakened by
+the deletion branch: it never produces Ready=True.) -/
+theorem cdel_ready_true_only_if_before (re : Bool) (w : CDelWorld) (c : CDelCall) (cs : List Cond)
+    (h : claimDeleted re w c = some cs) (ht : statusOf cs "Ready" = some "True") :
+    statusOf w.conds "Ready" = some "True" := by
+  cases hp : c.paused with
+  | true =>
+    unfold claimDeleted at h
+    simp only [hp, if_true] at h
+    split at h
+    · cases h
+    · rw [Option.some.injEq] at h; subst h
+      rw [statusOf_setCond_ne _ _ _ (by decide)] at ht; exact ht
+  | false =>
+    rcases cdel_ready_deleting_or_left re w c hp cs h with h1 | h1
+    · rw [statusOf_eq, h1] at ht; exact absurd ht (by decide)
+    · rw [statusOf_eq, h1.1, ← statusOf_eq] at ht; exact ht
+
+/-- With Deleting set again after RemoveFinalizer (the proposed repair) every status the deletion
+branch proper stores - the XR could be read or does not exist - carries Ready=False/Deleting. -/
+theorem cdel_ready_is_deleting (w : CDelWorld) (c : CDelCall) (hp : c.paused = false) (hx : c.xrReadFails w = false)
+    (cs : List Cond) (h : claimDeleted true w c = some cs) : findC cs "Ready" = some deleting := by
+  rcases cdel_ready_deleting_or_left true w c hp cs h with h1 | h1
+  · exact h1
+  · rcases h1.2 with h2 | h2
+    · rw [hx] at h2; cases h2
+    · exact absurd h2.1 (by decide)
+
+/-- THE UNCHANGED CODE KEEPS Ready=True ON A CLAIM BEING DELETED: the model of the existing branch on
+a concrete witness - a ready claim with a deletion timestamp, held by another finalizer, its XR
+deleted, everything succeeds - stores Ready=True/Available and Synced=True (monitor
+`C05:claim-deleting-condition-lost-on-finalizer-removal`, corpus/C05/deleting-condition-lost.jsonl). -/
+theorem claim_deleting_condition_lost_fails_on_unfixed_witness :
+    (claimDeleted false ⟨[⟨"Ready", "True", "Available"⟩], true, true, true⟩ ⟨false, false, none, none, false⟩).map
+      (fun cs => (findC cs "Ready", statusOf cs "Synced")) =
+      some (some ⟨"Ready", "True", "Available"⟩, some "True") := by
+  decide
+
+theorem cdelStep_ready_not_true (re : Bool) (w : CDelWorld) (c : CDelCall) (h0 : statusOf w.conds "Ready" ≠ some "True")
+    (w' : CDelWorld) (h : (cdelStep re (some w) c).1 = some w') : statusOf w'.conds "Ready" ≠ some "True" := by
+  unfold cdelStep at h
+  simp only [] at h
+  split at h
+  · split at h
+    · cases hr : claimDeleted re w c with
+      | none => simp only [hr, Option.some.injEq] at h; subst h; exact h0
+      | some cs =>
+        simp only [hr, Option.some.injEq] at h; subst h
+        exact fun ht => h0 (cdel_ready_true_only_if_before re w c cs hr ht)
+    · cases h
+  · cases hr : claimDeleted re w c with
+    | none => simp only [hr, Option.some.injEq] at h; subst h; exact h0
+    | some cs =>
+      simp only [hr, Option.some.injEq] at h; subst h
+      exact fun ht => h0 (cdel_ready_true_only_if_before re w c cs hr ht)
+
+theorem cdelTrace_gone (re : Bool) (cs : List CDelCall) : ∀ p ∈ cdelTrace re none cs, p.1 = none := by
+  induction cs with
+  | nil => intro p hp; simp [cdelTrace] at hp
+  | cons c rest ih =>
+    intro p hp
+    simp only [cdelTrace, cdelStep, List.mem_cons] at hp
+    rcases hp with rfl | hp
+    · rfl
+    · exact ih p hp
+
+/-- Through ANY sequence of reconciles of a claim being deleted: a claim that was not Ready=True
+when its deletion began is never reported Ready=True again. -/
+theorem cdel_trace_ready_never_becomes_true (re : Bool) (w : CDelWorld) (cs : List CDelCall)
+    (h0 : statusOf w.conds "Ready" ≠ some "True") :
+    ∀ p ∈ cdelTrace re (some w) cs, ∀ st, p.1 = some st → statusOf st "Ready" ≠ some "True" := by
+  induction cs generalizing w with
+  | nil => intro p hp; simp [cdelTrace] at hp
+  | cons c rest ih =>
+    intro p hp st hst
+    simp only [cdelTrace, List.mem_cons] at hp
+    rcases hp with rfl | hp
+    · simp only [Option.map_eq_some_iff] at hst
+      obtain ⟨w', hw', rfl⟩ := hst
+      exact cdelStep_ready_not_true re w c h0 w' hw'
+    · cases hw' : (cdelStep re (some w) c).1 with
+      | none =>
+        rw [hw'] at hp
+        have := cdelTrace_gone re rest p hp
+        rw [this] at hst; cases hst
+      | some w' =>
+        rw [hw'] at hp
+        exact ih w' (cdelStep_ready_not_true re w c h0 w' hw') p hp st hst
+
+/-! ### the models read the Go functions as they are (regenerated call skeletons) -/
+
+/-- composite `Reconciler.Reconcile`: Get, pause branch, deletion branch, then per phase the call,
+its conflict test where `Phase.conflictAware`, ReconcileError + status update; Compose's fatal tail;
+StartWatches; PublishConnection; handleCommonCompositionResult, updateXRConditions, status update -/
+theorem skeleton_reconcile : Xp.Gen.c05SkelReconcile = skelReconcile := by decide
+theorem skeleton_update_xr_conditions : Xp.Gen.c05SkelUpdateXRConditions = skelUpdateXRConditions := by decide
+theorem skeleton_handle_common : Xp.Gen.c05SkelHandleCommon = skelHandleCommon := by decide
+theorem skeleton_fn_compose : Xp.Gen.c05SkelFnCompose = skelFnCompose := by decide
+theorem skeleton_remove_system_conditions : Xp.Gen.c05SkelRemoveSystemConditions = skelRemoveSystemConditions := by decide
+theorem skeleton_pt_compose : Xp.Gen.c05SkelPTCompose = skelPTCompose := by decide
+theorem skeleton_is_ready : Xp.Gen.c05SkelIsReady = skelIsReady := by decide
+theorem skeleton_check_is_ready : Xp.Gen.c05SkelCheckIsReady = skelCheckIsReady := by decide
+theorem skeleton_check_validate : Xp.Gen.c05SkelCheckValidate = skelCheckValidate := by decide
+theorem skeleton_check_from_v1 : Xp.Gen.c05SkelCheckFromV1 = skelCheckFromV1 := by decide
+theorem skeleton_checks_from_template : Xp.Gen.c05SkelChecksFromTemplate = skelChecksFromTemplate := by decide
+theorem skeleton_claim_reconcile : Xp.Gen.c05SkelClaimReconcile = skelClaimReconcile := by decide
+
+/-- every phase the model knows is a call of `Reconcile`, and the conflict-aware ones are exactly
+those followed by an IsConflict test in the source -/
+theorem skeleton_phase_conflict_tests (p : Phase) (hp : p ≠ .get) :
+    (p.skel.take 2 = [p.callName, "kerrors.IsConflict"]) ↔ p.conflictAware = true := by
+  cases p <;> first | exact absurd rfl hp | decide
 
 /-! ### non-vacuity -/
 example : (reconcile ⟨[⟨"Ready", "False", "Creating"⟩], []⟩ [⟨"a", true, true⟩] none
@@ -1011,5 +1739,59 @@ example : statusOf (fnReconcile ⟨[⟨"Ready", "False", "Creating"⟩], []⟩
 /-- two readiness checks, the second one unmet -/
 example : isReady ⟨.str "ok", .absent, .absent, []⟩
     [⟨"MatchString", "status.s", "ok", 0, false, "", ""⟩, ⟨"NonEmpty", "status.n", "", 0, false, "", ""⟩] = some false := by decide
+
+/-- a P&T reconcile that completes: two templates, the second not rendered -/
+example : (⟨[⟨"a", true, false, ⟨.str "ok", .absent, .absent, []⟩, [⟨"MatchString", "status.s", "ok", 0, false, "", ""⟩]⟩,
+            ⟨"b", false, false, ⟨.absent, .absent, .absent, []⟩, []⟩], none, none, none, false⟩ : PTRec).completes
+          [⟨"a", true, true⟩, ⟨"b", false, false⟩] := by decide
+
+/-- a P&T reconcile that does not complete (a readiness check of an unknown type) -/
+example : ∀ composed, ¬ (⟨[⟨"a", true, false, ⟨.absent, .absent, .absent, []⟩, [⟨"Bogus", "", "", 0, false, "", ""⟩]⟩],
+            none, none, none, false⟩ : PTRec).completes composed := by
+  intro composed h
+  have e : ptObserve (⟨[⟨"a", true, false, ⟨.absent, .absent, .absent, []⟩, [⟨"Bogus", "", "", 0, false, "", ""⟩]⟩],
+            none, none, none, false⟩ : PTRec).effRes = none := by decide
+  have := h.2.1
+  rw [e] at this
+  cases this
+
+/-- a late Compose failure that is reached: one step desiring one resource, its apply forbidden -/
+example : (⟨[{ conds := [⟨⟨"Custom", "True", "Fn"⟩, false⟩], fatal := false, err := false, res := [⟨"a", some true, false⟩],
+               xrReady := none, statusConds := [] }], none, false⟩ : FnRec).faulted .apply :=
+  ⟨_, _, rfl, rfl⟩
+
+example : statusOf (fnReconcileF ⟨[⟨"Custom", "True", "Old"⟩], []⟩
+    ⟨[{ conds := [⟨⟨"Custom", "True", "Fn"⟩, false⟩], fatal := false, err := false, res := [⟨"a", some true, false⟩],
+        xrReady := some true, statusConds := [] }], none, false⟩ (some (.apply, .forbidden)) false).1.conds "Custom" = some "Unknown" := by decide
+
+/-- the same failure in the FIRST reconcile of the XR: the reference apply changed the XR, the
+reconciler's status update conflicts, nothing is stored -/
+example : (fnWorldStep ⟨⟨[⟨"Custom", "True", "Old"⟩], []⟩, [], [], false⟩
+    ⟨[{ conds := [⟨⟨"Custom", "True", "Fn"⟩, false⟩], fatal := false, err := false, res := [⟨"a", some true, false⟩],
+        xrReady := some true, statusConds := [] }], none, false⟩ (some (.apply, .forbidden))).2 = false := by decide
+
+/-- deleting: unpublish fails, then everything goes through while another finalizer holds the XR -/
+example : (delTrace true (some ⟨⟨[⟨"Ready", "True", "Available"⟩], []⟩, true, true⟩)
+    [⟨false, false, some (.unpublish, .generic), false⟩, ⟨false, false, none, false⟩]).map
+      (fun p => (p.1.map fun st => (statusOf st.conds "Ready", statusOf st.conds "Synced"), p.2)) =
+    [(some (some "False", some "False"), true), (some (some "False", some "True"), true)] := by decide
+
+/-- the code as it is: the same XR, everything going through at once - Ready=True is stored again;
+the next reconcile (no finalizer left to remove) stores Deleting -/
+example : (delTrace false (some ⟨⟨[⟨"Ready", "True", "Available"⟩], []⟩, true, true⟩)
+    [⟨false, false, none, false⟩, ⟨false, false, none, false⟩]).map
+      (fun p => (p.1.map fun st => (statusOf st.conds "Ready", statusOf st.conds "Synced"), p.2)) =
+    [(some (some "True", some "True"), true), (some (some "False", some "True"), true)] := by decide
+
+example : (⟨false, false, some (.removeFinalizer, .notFound), false⟩ : DelCall).succeeds true :=
+  Or.inr ⟨_, rfl, Or.inr rfl⟩
+
+/-- a claim being deleted, code as it is: the Delete of the XR is forbidden (ReconcileError, Deleting
+stored), then everything goes through while another finalizer holds the claim (Deleting is still
+there: it was stored), the third reconcile has no finalizer left to remove -/
+example : (cdelTrace false (some ⟨[⟨"Ready", "True", "Available"⟩], true, true, true⟩)
+    [⟨false, false, none, some (.deleteXR, .forbidden), false⟩, ⟨false, false, none, none, false⟩]).map
+      (fun p => (p.1.map fun cs => (statusOf cs "Ready", statusOf cs "Synced"), p.2)) =
+    [(some (some "False", some "False"), true), (some (some "False", some "True"), true)] := by decide
 
 end Xp.C05
